@@ -136,7 +136,7 @@ def run(ctx):
         design(ctx)
     fails = fetcher_level(ctx)
     nf = len(fails)
-    if ctx.only is None and not os.environ.get("VERIF_SKIP_BLOCK"):
+    if not _gated.single(ctx) and not os.environ.get("VERIF_SKIP_BLOCK"):
         fails += bl.run_block_level(ctx, ctx.pick(30, 400))
     vlib.report_failures(ctx, fails, lambda f: _gated.describe(f) if f in fails[:nf] else bl.ch.describe(f))
     ctx.cov["rule"] = ("fetcher level: seeded controller over the real Fetcher: 1-6 Fetch calls over 1-5 keys (overlapping "
